@@ -308,6 +308,9 @@ func (sm *Summary) Events() []Event { return sm.St.events }
 func (sm *Summary) Fact(b *Sym) (bool, bool) { return evalBool(sm.St, b) }
 
 type PathSim struct {
+	// QuietDefer: deferred calls that are known to have no effect unless the function panics; they are skipped (their
+	// arguments do not escape). The caller must have established that property by a rule of its own.
+	QuietDefer func(*ssa.Defer) bool
 	prog      *Program
 	maxVisits int
 	maxPaths  int
@@ -599,6 +602,10 @@ func (ps *PathSim) exec(fn *ssa.Function, st *pstate, ins ssa.Instruction) {
 	case *ssa.Call:
 		ps.execCall(fn, st, x, x)
 	case *ssa.Defer:
+		if ps.QuietDefer != nil && ps.QuietDefer(x) {
+			// a deferred call the caller vouches for: it has no effect on a normal return (judged by its own rule)
+			return
+		}
 		ps.execCall(fn, st, x, nil)
 	case *ssa.Go:
 		ps.execCall(fn, st, x, nil)
